@@ -110,6 +110,21 @@ def run_driver(lines: list[str], timeout: float = 600.0) -> list[list[str]]:
     return [[dec(f) for f in ln.split("\t")] for ln in out]
 
 
+def run_driver_split(lines: list[str], timeout: float = 240.0, single_timeout: float = 20.0) -> list[list[str]]:
+    """Like run_driver, but a batch that exceeds `timeout` is bisected until the slow request is isolated; a single request
+    that exceeds `single_timeout` is answered `["err", "timeout"]` (the model has no per-case clock of its own; callers count
+    these and never treat them as a verdict)."""
+    if not lines:
+        return []
+    try:
+        return run_driver(lines, timeout=timeout if len(lines) > 1 else single_timeout)
+    except subprocess.TimeoutExpired:
+        if len(lines) == 1:
+            return [["err", "timeout"]]
+        mid = len(lines) // 2
+        return run_driver_split(lines[:mid], timeout, single_timeout) + run_driver_split(lines[mid:], timeout, single_timeout)
+
+
 # ----------------------------------------------------------------------------------------
 # Lean build + audit
 # ----------------------------------------------------------------------------------------
